@@ -52,6 +52,7 @@ func (w *WaterMark) Init(closer *Closer) {
 // Begin sets the last index to the given value.
 func (w *WaterMark) Begin(index uint64) {
 	w.setLastIndex(index)
+	VerifYield("wm.begin.afterLast")
 	w.addIndex(index, 1)
 }
 
@@ -134,10 +135,12 @@ func (w *WaterMark) addIndex(index uint64, delta int32) {
 		return
 	}
 	win := w.ensureWindow(index)
+	VerifYield("wm.add.afterEnsure")
 	offset := index - win.base
 	if offset < uint64(len(win.slots)) {
 		win.slots[offset].Add(delta)
 	}
+	VerifYield("wm.add.afterSlot")
 	w.tryAdvance()
 }
 
@@ -170,6 +173,7 @@ func (w *WaterMark) tryAdvance() {
 		if win.slots[offset].Load() > 0 {
 			return
 		}
+		VerifYield("wm.advance.beforeCAS")
 		if atomic.CompareAndSwapUint64(&w.doneUntil, doneUntil, next) {
 			w.notifyWaiters(doneUntil, next)
 			continue
